@@ -871,6 +871,9 @@ class FrameInterp(Interp):
             d = simplify(A.norm(x.a - y.a))
             if rat_sign(d, self.positive) is None:
                 return Cond(self.opq("cmp" + type(op).__name__, Dual(d)))
+        if isinstance(op, (ast.Is, ast.IsNot)) and (a is None or b is None) and not isinstance(a, InvVal) and not isinstance(b, InvVal):
+            # `x is None` / `x is not None` (optional arguments): object identity of the Python value, defined for a tensor as for anything else
+            return super().compare(a, op, b)
         if isinstance(a, (Tens, Vec, Cond)) or isinstance(b, (Tens, Vec, Cond)):
             raise EvalError("comparison of tensors")
         return super().compare(a, op, b)
